@@ -203,7 +203,23 @@ impl Fx {
 }
 
 pub fn run_case(c: &Case, fx: &Fx) -> Seen {
-    let mut s = Sched::new(vec![]);
+    run_case_sched(c, fx, &[]).0
+}
+
+/// The same under a schedule prefix; also returns the scheduling points met and a replay error, if any.
+pub fn run_case_sched(c: &Case, fx: &Fx, schedule: &[usize]) -> (Seen, Vec<crate::det::Point>, Option<String>) {
+    POINTS.with(|p| *p.borrow_mut() = (Vec::new(), None));
+    let seen = run_case_inner(c, fx, schedule);
+    let (points, err) = POINTS.with(|p| std::mem::take(&mut *p.borrow_mut()));
+    (seen, points, err)
+}
+
+thread_local! {
+    static POINTS: std::cell::RefCell<(Vec<crate::det::Point>, Option<String>)> = const { std::cell::RefCell::new((Vec::new(), None)) };
+}
+
+fn run_case_inner(c: &Case, fx: &Fx, schedule: &[usize]) -> Seen {
+    let mut s = Sched::new(schedule.to_vec());
     let (near, far) = DuplexStream::new(if c.io.bufsize == 0 { 16384 } else { c.io.bufsize });
     let seen = Arc::new(Mutex::new(Seen::default()));
     let raw_in = Arc::new(Mutex::new(Vec::new()));
@@ -357,6 +373,7 @@ fn finish_case(c: &Case, mut s: Sched, seen: Arc<Mutex<Seen>>, raw_in: Arc<Mutex
     out.raw = raw_in.lock().unwrap().clone();
     out.peer_sent = *sent.lock().unwrap();
     stall.open();
+    POINTS.with(|p| *p.borrow_mut() = (s.points.clone(), s.replay_error.clone()));
     s.teardown();
     out
 }
@@ -650,6 +667,51 @@ pub fn run(args: &Args) -> i32 {
         }
         (o, v)
     });
+    // thorough tier: every case again under every schedule with one deviation from the default order
+    let mut results = results;
+    let mut sched_execs = 0u64;
+    if args.tier.is_thorough() {
+        let extra = crate::evidence::par_map(cs.len(), threads, |i| {
+            let c = &cs[i];
+            // TLS handshakes are not byte-for-byte reproducible (ring draws its own randomness; ECDSA
+            // signatures vary in length), so schedules are only explored where sizes cannot move a
+            // scheduling point: whole-flight writes into the large buffer, nothing altered
+            if c.io.frag != 0 || c.io.bufsize != 0 || c.io.corrupt.is_some() {
+                return (0, vec![]);
+            }
+            crate::evidence::watchdog::set_context(json!({"engine":"schedmc-c12","uri":c.uri(),"scheme":c.scheme,"host":c.host,"port":c.port,"peer":format!("{:?}", c.peer),"peer_spec":peer_json(&c.peer),"client_alpn":c.client_alpn,"via_client":c.via_client,"io":{"corrupt":c.io.corrupt.map(|(a,m)| vec![a as u64, m as u64]),"frag":c.io.frag,"bufsize":c.io.bufsize,"host_header":c.io.host_header}}));
+            let mut found: Vec<(String, String)> = vec![];
+            let stats = crate::det::explore(
+                1,
+                3000,
+                |prefix| {
+                    let (o, points, err) = run_case_sched(c, &fx, prefix);
+                    let mut v = check(c, &o);
+                    if let Some(e) = err {
+                        v.push(("machinery".into(), e));
+                    }
+                    crate::det::Execution { points, outcome: v }
+                },
+                |prefix, _d, ex| {
+                    for (sub, msg) in &ex.outcome {
+                        if !found.iter().any(|f| f.0 == *sub) {
+                            found.push((sub.clone(), format!("{msg} (under schedule {prefix:?})")));
+                        }
+                    }
+                    true
+                },
+            );
+            (stats.executions, found)
+        });
+        for (i, (n, found)) in extra.into_iter().enumerate() {
+            sched_execs += n;
+            for f in found {
+                if !results[i].1.iter().any(|v| v.0 == f.0) {
+                    results[i].1.push(f);
+                }
+            }
+        }
+    }
     let _ = std::panic::take_hook();
     let mut classes: BTreeSet<String> = BTreeSet::new();
     let mut samples = vec![];
@@ -683,7 +745,11 @@ pub fn run(args: &Args) -> i32 {
             run.violation(format!("{sub} scheme={} host-kind={hk} peer={peer_class}", c.scheme), format!("{msg}; uri {} peer {:?}", c.uri(), c.peer), json!({"engine":"schedmc-c12","uri":c.uri(),"scheme":c.scheme,"host":c.host,"port":c.port,"peer":format!("{:?}", c.peer),"peer_spec":peer_json(&c.peer),"client_alpn":c.client_alpn,"via_client":c.via_client,"io":{"corrupt":c.io.corrupt.map(|(a,m)| vec![a as u64, m as u64]),"frag":c.io.frag,"bufsize":c.io.bufsize,"host_header":c.io.host_header}}));
         }
     }
-    run.cov("evaluations", cs.len() as u64);
+    run.cov("evaluations", cs.len() as u64 + sched_execs);
+    run.cov("cases", cs.len() as u64);
+    if sched_execs > 0 {
+        run.cov("schedules_with_one_deviation", sched_execs);
+    }
     run.cov("distinct_nontrivial", classes.len() as u64);
     run.cov("server_flight_bytes", flight_len as u64);
     run.cov("exhaustive", true);
